@@ -226,6 +226,12 @@ func main() {
 		cmdRandom(os.Args[2:])
 	case "explain":
 		cmdExplain(os.Args[2:])
+	case "fuzztables":
+		cmdFuzzTables()
+	case "fuzz":
+		cmdFuzz(os.Args[2:])
+	case "fuzzone":
+		cmdFuzzOne(os.Args[2:])
 	default:
 		os.Exit(2)
 	}
